@@ -772,7 +772,7 @@ def c12(prop, tier, seed):
     seen = set()
     for r in races:
         # one violation per distinct pair of source locations
-        locs = tuple(sorted(set(l.strip() for l in r.splitlines() if "/repo/" in l)))[:4]
+        locs = tuple(sorted(set(l.strip() for l in r.splitlines() if (vlib.REPO + "/") in l)))[:4]
         if locs in seen:
             continue
         seen.add(locs)
